@@ -539,7 +539,8 @@ def run(engine: str, req: dict) -> dict:
         for fb in (True, False):
             try:
                 f = get_func_from_session(name, sess, fallback=fb)
-                disp[f"{name}|{int(fb)}"] = "Found:" + f.__name__
+                import sqlframe.base.functions as BF
+                disp[f"{name}|{int(fb)}"] = "Found:" + (name if f is getattr(BF, name, None) else "<another object>")
             except AttributeError:
                 disp[f"{name}|{int(fb)}"] = "ErrAttribute"
             except NotImplementedError:
